@@ -11,6 +11,7 @@ mod core;
 mod harness;
 mod plan;
 mod structcheck;
+mod sys_burst;
 mod sys_ds;
 mod sys_event;
 mod sys_mpmc;
@@ -64,6 +65,7 @@ macro_rules! systems {
             "ring.grow" => sys_ds::RingSys<futures_intrusive::buffer::GrowingHeapBuf<harness::Tag>>,
             "ds.list" => sys_ds::ListSys,
             "ds.heap" => sys_ds::HeapSys,
+            "burst" => sys_burst::Sys,
             "mutex.local" => sys_mutex::Sys<NL>,
             "mutex.std" => sys_mutex::Sys<PL>,
             "sem.local" => sys_sem::Sys<sys_sem::Borrowed<NL>>,
